@@ -367,7 +367,7 @@ func c08(c *Ctx) (*report.Result, error) {
 	res.Analysed["eviction_class_deletes"] = ev
 	res.Analysed["registry_deletes"] = len(dels)
 
-	checkFreshTokens(c, res)
+	checkFreshTokens(c, res, "O8.5")
 	checkClosableSends(c, res)
 	checkRegistrationOrder(c, res)
 	checkRegistrationCleanup(c, res)
@@ -599,8 +599,7 @@ func checkRegistrationCleanup(c *Ctx, res *report.Result) {
 }
 
 // checkFreshTokens: the registration time that UnregisterShard later compares is unique per call.
-func checkFreshTokens(c *Ctx, res *report.Result) {
-	rule := "O8.5"
+func checkFreshTokens(c *Ctx, res *report.Result, rule string) {
 	f := resolve(c, res, rule, anchor{"proxy", "*shardManagerImpl", "addLocalShard"})
 	if f == nil {
 		return
